@@ -1,19 +1,25 @@
 """C05 -- tracked allocations return sound blocks for every size, or fail cleanly.
 Scenario :  <guard 0|1> <node_size> <nfail> <failing underlying-call index>*  [:wrap]  <op>*
   :wrap  :  memory accounting on: the harness starts a GlobalMemoryAccountant, i.e. an AccountingTestMemoryAllocator sits around
-            each of the three recording allocators (malloc, new, new[]) for the whole scenario.  No fault indices then (nfail = 0).
+            each of the three recording allocators (malloc, new, new[]) for the whole scenario.  Fault indices then also count the
+            wrappers' own requests (tracking node per block, the accountant's statistics node per size).
   op     :  :m n | :dm n | :c num size | :r id|~ n | :sd $str | :sn $str n | :n n | :na n | :nt n | :nat n | :nd n | :nad n | :f id | :w id off $bytes
             (id = index of the op that produced the block; :dm = detector-level allocMemory with an inline record)
-Observation: <guard> <sizeof record> <wrappers installed 0|1> then per op
+Observation: <guard> <sizeof record> <wrappers installed 0|1> <fault indices given 0|1> then per op
   | kind ncalls (ckind size ok)* addr%16 overlap offset-in-region region-size recordkind recordval digest tracked-total reports
-  and  | :end nlive (id digest)* total reports : the blocks still live (newest first) with their content, read back before the
-  harness releases every remaining block; total / reports after that release.
+  and  | :end nlive (id digest)* total reports leak : the blocks still live (newest first) with their content, read back before the
+  harness releases every remaining block; total / reports after that release; leak = regions of the underlying allocator still
+  allocated after that (and after the accountant has been stopped and destroyed).
 kind: 0 skipped 1 NULL 2 bad_alloc 3 pointer 4 void.  recordkind 1 = inline at offset recordval, 2 = in another region with recordval
 bytes from the record to the end of that region.  overlap = 1: user bytes + guard or record of the new block intersect those of
 another live block (or each other).
 With wrappers the call log also holds the wrappers' own requests (tracking nodes, the accountant's per-size nodes); the model does
-not predict those: `project` reduces every call log of a wrapper observation to "did a call fail" (Coq: C05_Wrapper.canon, and
-C05_spec_wrap_reads_failure_only: that is all the oracle reads of it) before model and implementation are compared."""
+not predict those: `project` reduces every call log of a wrapper observation to the facts the oracle reads of it (Coq:
+C05_Wrapper.canon and C05_spec_wrap_reads_failure_only: a call other than a request for a statistics node failed / such a request
+failed / a failed request gave back everything but statistics nodes) before model and implementation are compared, and drops the
+end-of-scenario leak count (a block moved by realloc leaves its stale tracking node behind; the oracle bounds that).  With wrappers
+AND fault indices the model cannot know which operation an index hits: `project` then keeps only the header and the number of
+operations, i.e. the oracle `spec` judges the implementation's observation alone."""
 import os, subprocess, hashlib, tempfile
 import vlib
 from vlib import tz, tb
@@ -28,16 +34,23 @@ RULE = ("size sweep: every size 0..4096 through at least one separate-record ent
         "2^64-1-(guard+8+record)), calloc pairs around 2^32 x 2^32, (2^k, 2^(64-k) +- 1), zero factors; strdup/strndup over lengths 0..40 with "
         "n in {0, len-1, len, len+1, huge}; realloc grow/shrink/same/0 chains with written content; fault enumeration: every underlying call index "
         "of a 14-allocation workload taken in turn as the failing malloc/realloc (pairs in thorough); random histories; each scenario in both "
-        "builds (guard bytes on / off). With the accounting wrapper allocators installed (GlobalMemoryAccountant started; no fault indices, "
+        "builds (guard bytes on / off). With the accounting wrapper allocators installed (GlobalMemoryAccountant started; "
         "requests above 1 MiB still refused): every size 0..520 through a separate- and an inline-record entry point, every 5th boundary size "
         "and the sizes around the overflow threshold, a quarter of the calloc pairs, a third of the strings, realloc chains, the workload, "
-        "random histories. non-trivial = at least one allocation-like op")
+        "random histories; faults under the wrappers: each underlying call index 0..8 (block, tracking node, statistics node, leak record "
+        "and its nodes, underlying realloc, statistics node requested by a release) of twelve short workloads over malloc, new, new[], "
+        "nothrow, debug new, realloc of a live / NULL / inline-record block, calloc, strdup/strndup and mixed families sharing a size "
+        "(every index of the long workload and pairs in thorough), half of the random wrapper histories with fault indices. "
+        "non-trivial = at least one allocation-like op")
 ASSUMPTIONS = ["LP64 (size_t 64 bit, pointer 8 bytes)", "the underlying allocator returns fresh, suitably aligned regions of the requested size or NULL "
                "(libc malloc/realloc behind the recording seam; requests above 1 MiB are refused by the seam)",
                "sizeof(MemoryLeakDetectorNode) is a multiple of 8 below 2^16 (measured by the harness, echoed in every observation)",
-               "scenarios with the accounting wrappers installed carry no fault indices: the unchanged wrapper dereferences its own node when the "
-               "underlying allocator refuses it (TestMemoryAllocator.cpp addMemoryToMemoryTrackingToKeepTrackOfSize, "
-               "MemoryAccountant::createNewAccountantAllocationNode); refusal by size (> 1 MiB) is exercised with wrappers"]
+               "with the accounting wrappers installed a request for a statistics node of the accountant is recognised by its size "
+               "(sizeof(MemoryAccountantAllocationNode) = 6 words, re-read from the source): a refused one need not fail the allocation, and "
+               "statistics nodes may outlive a failed request",
+               "with the wrappers AND fault indices the model's observation is compared with the implementation's only in the header and the "
+               "number of operations (the model does not predict the wrappers' own requests, hence not which operation an index hits): the "
+               "oracle alone judges those runs"]
 
 _ns = None
 
@@ -98,13 +111,30 @@ def both(fails, ops, wrap=False):
     body = " ".join(ops) if isinstance(ops, list) else ops
     head = " ".join(["%x" % len(fails)] + ["%x" % f for f in fails])
     if wrap:
-        assert not fails
         body = ":wrap " + body
     return ["1 %x %s %s" % (ns, head, body), "0 %x %s %s" % (ns, head, body)]
 
 
 SEP_KINDS = [":m", ":r ~"]
 INL_KINDS = [":n", ":na", ":nt", ":nat", ":nd", ":nad", ":dm"]
+# short workloads for the fault enumeration under the wrappers: with wrappers one tracked malloc makes up to six underlying
+# requests (block, its tracking node, statistics node of the size; leak record, its tracking node, its statistics node), a release may
+# ask for a statistics node (size 0: a block the wrapper does not know, i.e. one moved by realloc), so indices 0..8 reach the second or
+# third operation
+WRAP_FAULT_WORKLOADS = [
+    [":m 10", ":m 10", ":f 0", ":m 31"],                                              # malloc: second one finds the statistics nodes
+    [":n 8", ":n 8", ":f 0", ":n 9", ":f 1"],                                         # new
+    [":na 14", ":f 0", ":na 14", ":na 15"],                                           # new[]
+    [":m 5", ":w 0 0 $0102030405", ":r 0 40", ":f 2", ":m 5"],                        # realloc of a live block, release of the moved block
+    [":r ~ 9", ":w 0 0 $0a0b0c", ":r 0 1e", ":r 2 0", ":f 3"],                        # realloc(NULL) and chains
+    [":c 3 5", ":c 3 5", ":c 0 7", ":f 1"],                                           # calloc
+    [":sd $68656c6c6f", ":sn $616263 2", ":sd $", ":f 0"],                            # strdup / strndup
+    [":nt 5", ":nat 7", ":nt 5", ":f 1"],                                             # nothrow new / new[]
+    [":dm e", ":w 0 0 $0102", ":r 0 28", ":dm e", ":f 2"],                            # inline-record block reallocated
+    [":m 8", ":n 8", ":na 8", ":f 0", ":f 1", ":f 2"],                                # three wrappers, one accountant
+    [":nd 9", ":nad 9", ":m 200001", ":f 0", ":nd 9"],                                # debug new, a refusal by size in between
+    [":r ~ 9", ":f 0", ":m 9", ":f 2"],                                               # release of a block the wrapper does not know: statistics node of size 0 (index 4)
+]
 WORKLOAD = [":m a", ":dm 14", ":n 8", ":c 3 5", ":sd $68656c6c6f", ":r 0 28", ":r 1 32", ":na 7", ":nt 5", ":sn $616263 2", ":r 5 5",
             ":r ~ 9", ":nat 0", ":w 6 2 $0102", ":r 6 40", ":f 2", ":m 3", ":r 10 0", ":f 7"]
 
@@ -209,8 +239,8 @@ def generate(tier, rng):
 
 def with_wrappers(tier, rng, bs, pl, strs, allk):
     """Scenarios run under GlobalMemoryAccountant::start(): an AccountingTestMemoryAllocator between every entry point and the
-    recording allocator.  Alignment, usable bytes, disjointness, contents, totals and clean refusal (by size) are judged as without
-    wrappers; fault indices are not used (see ASSUMPTIONS)."""
+    recording allocator.  Alignment, usable bytes, disjointness, contents, totals and clean refusal (by size, and at fault indices) are judged as
+    without wrappers (see ASSUMPTIONS for the two differences)."""
     out = []
     thorough = tier == "thorough"
     # every size 0..520 (4096 in thorough): one separate-record and one inline-record entry point each
@@ -255,6 +285,18 @@ def with_wrappers(tier, rng, bs, pl, strs, allk):
                 ops = ["%s %x" % (first, n1), ":w 0 0 " + tb(data), ":r 0 %x" % n2, ":r 2 %x" % n1, ":m %x" % n1, ":f 3", ":n %x" % n1, ":r 4 %x" % (n2 // 2 if n2 < 6000 else 77)]
                 out += both([], ops, True)
     out += both([], WORKLOAD, True)
+    # faults under the wrappers: every underlying call index 0..8 of each short workload (the n-th underlying call fails, the
+    # wrappers' own node requests and the accountant's nodes included)
+    for wl in WRAP_FAULT_WORKLOADS:
+        for k in range(0, 16 if thorough else 9):
+            out += both([k], wl, True)
+    if thorough:
+        for k in range(0, 70):
+            out += both([k], WORKLOAD, True)
+        for wl in WRAP_FAULT_WORKLOADS:
+            for k in range(0, 10):
+                for k2 in range(k + 1, k + 4):
+                    out += both([k, k2], wl, True)
     out += random_histories(rng, 1500 if thorough else 80, allk, True)
     return out
 
@@ -282,7 +324,10 @@ def random_histories(rng, nrand, allk, wrap):
                 ops.append(":w %x %x %s" % (rng.choice(allocs), rng.randrange(0, 9), tb(bytes(rng.randrange(256) for _ in range(rng.randrange(0, 9))))))
             else:
                 ops.append(":m %x" % small); allocs.append(i)
-        fails = [] if wrap else sorted(set(rng.randrange(0, 30) for _ in range(rng.choice([0, 0, 1, 1, 2, 4]))))
+        if wrap:      # half of the wrapper histories with fault indices (they also count the wrappers' own requests: up to ~6 per operation)
+            fails = sorted(set(rng.randrange(0, 60) for _ in range(rng.choice([1, 1, 2, 4])))) if h % 2 else []
+        else:
+            fails = sorted(set(rng.randrange(0, 30) for _ in range(rng.choice([0, 0, 1, 1, 2, 4]))))
         out += both(fails, ops, wrap)
     return out
 
@@ -292,25 +337,56 @@ def applies(s, flavour):
     return (t[0] == "1") == (flavour == "asan") and int(t[1], 16) == node_size()
 
 
+_acct = None
+
+
+def acct_node_size():
+    """sizeof(MemoryAccountantAllocationNode) as the translator-lite plugin re-read it from the source (coq/gen/Gen_C05.v)."""
+    global _acct
+    if _acct is None:
+        import re
+        txt = open(os.path.join(vlib.ROOT, "coq", "gen", "Gen_C05.v")).read()
+        _acct = int(re.search(r"c05_accountant_node_size : N := (\d+)%N", txt).group(1))
+    return _acct
+
+
+def canon_calls(kind, calls):
+    """C05_Wrapper.canon_calls: the three facts the oracle reads of a call log with the wrappers installed."""
+    st = "%x" % acct_node_size()
+    is_stat = lambda c: c[0] == "0" and c[1] == st
+    hard = any(c[2] == "0" and not is_stat(c) for c in calls)
+    stat = any(c[2] == "0" and is_stat(c) for c in calls)
+    got = sum(1 for c in calls if c[0] != "2" and c[2] == "1")
+    freed = sum(1 for c in calls if c[0] == "2")
+    sgot = sum(1 for c in calls if is_stat(c) and c[2] == "1")
+    wbal = max(got - sgot, 0) <= freed <= got
+    out = ([["0", "0", "0"]] if hard else []) + ([["0", st, "0"]] if stat else []) + ([["0", "0", "1"]] if kind in ("1", "2") and not wbal else [])
+    return ["%x" % len(out)] + [x for c in out for x in c]
+
+
 def project(obs, flavour):
-    """Observation of a wrapper scenario (third token 1): every call log becomes "did a call fail" (C05_Wrapper.canon_calls).  The
-    model does not predict the wrappers' own underlying requests, and the oracle does not read more of the log
-    (C05_spec_wrap_reads_failure_only).  Every other component, and every observation without wrappers, is compared as it is."""
+    """Observation of a wrapper scenario (third token 1).  Without fault indices: every call log becomes the facts the oracle reads
+    of it (C05_Wrapper.canon_calls, C05_spec_wrap_reads_failure_only) and the end-of-scenario leak count is dropped (stale tracking
+    nodes of blocks moved by realloc: bounded by the oracle, not predicted by the model); every other component is compared as it is.
+    With fault indices (fourth token 1): header and number of operations only -- the model does not predict the wrappers' own underlying
+    requests, hence not which operation an index hits; the oracle judges the implementation's observation alone.
+    Observations without wrappers are compared as they are."""
     t = obs.split()
-    if len(t) < 3 or t[2] != "1" or obs.startswith("!"):
+    if len(t) < 4 or t[2] != "1" or obs.startswith("!"):
         return obs
-    out, i = t[:3], 3
+    if t[3] == "1":
+        return " ".join(t[:4] + [":ops", "%x" % (sum(1 for x in t if x == "|") - 1)])
+    out, i = t[:4], 4
     try:
         while i < len(t):
             if t[i] != "|":
                 return obs
             if t[i + 1] == ":end":
-                out += t[i:]
+                out += t[i:-1] + ["-"]
                 break
             nc = int(t[i + 2], 16)
-            calls = t[i + 3:i + 3 + 3 * nc]
-            failed = any(calls[3 * k + 2] == "0" for k in range(nc))
-            out += [t[i], t[i + 1]] + (["1", "0", "0", "0"] if failed else ["0"])
+            flat = t[i + 3:i + 3 + 3 * nc]
+            out += [t[i], t[i + 1]] + canon_calls(t[i + 1], [flat[3 * k:3 * k + 3] for k in range(nc)])
             j = i + 3 + 3 * nc
             out += t[j:j + 9]
             i = j + 9
@@ -340,6 +416,8 @@ def classify(s):
         lab.add("accounting wrappers installed")
     if fails:
         lab.add("faults:%d" % min(len(fails), 3))
+        if is_wrap(s):
+            lab.add("faults under the accounting wrappers")
     for o in ops:
         lab.add("op" + o[0])
         if o[0] in (":m", ":dm", ":n", ":na", ":nt", ":nat", ":nd", ":nad"):
@@ -416,16 +494,21 @@ LEVEL_TEXT = ("Machine-checked (Coq) theorems over an executable model of allocM
               "clean failure at every fault point (nothing lost, everything still tracked), disjointness of live blocks and records over all "
               "histories, content theorems for realloc/calloc/strdup/strndup. Tied to the code by a differential run of the extracted model "
               "against the real entry points over recording allocator seams under ASan/UBSan, in the builds with and without guard bytes, "
-              "without and with the accounting wrapper allocators installed (GlobalMemoryAccountant started); the wrapper's alloc/free is "
-              "modelled and proved transparent for address, alignment and size, and the oracle on wrapper scenarios is proved to demand "
-              "everything it demands without wrappers except the sizes and balance of the underlying calls.")
+              "without and with the accounting wrapper allocators installed (GlobalMemoryAccountant started), fault points included; the "
+              "wrapper's alloc/free and the accountant's node requests are modelled, proved transparent for address, alignment and size and "
+              "proved to fail cleanly (NULL, nothing recorded, nothing left allocated when the block or the tracking node is refused; the "
+              "block still served when only a statistics node is refused), and the oracle on wrapper scenarios is proved to demand everything "
+              "it demands without wrappers except the sizes of the underlying calls, a refused statistics node not failing the allocation and "
+              "statistics nodes outliving a failed request.")
 LEVEL_NOTE = ("Partial: the model is bounds-checked, so the logic of memory safety is proved; actual heap accesses are seen only by ASan in the runs. "
               "Trusted: Coq kernel, extraction, harness (seams, region bookkeeping), generators, LP64. Modelled not verified: the C++ itself; libc "
               "malloc/realloc behind the seam (the byte copy of a realloc is libc's, the model states its contract); the default allocators' "
               "FAIL-on-NULL path (checkedMalloc) is not exercised; disjointness of different blocks is proved relative to the oracle handing out "
               "non-overlapping regions (C05_live_disjoint); in the runs the harness compares the address ranges of all live blocks and records "
               "(overlap flag, judged by the oracle) and ASan watches the accesses. With the wrappers installed the model does not predict the "
-              "wrappers' own underlying requests (call logs compared only as 'a call failed'), fault indices are not used (the unchanged wrapper "
-              "dereferences its own node when the underlying allocator refuses it), and the accountant's statistics are not part of the property.")
+              "wrappers' own underlying requests (call logs compared only through the three facts the oracle reads of them); with wrappers and "
+              "fault indices together it therefore does not predict which operation fails: the oracle alone judges those runs (model and "
+              "implementation compared in header and operation count only); the accountant's statistics are not part of the property; its "
+              "statistics requests are recognised by their size.")
 TECHNIQUE = "Coq proof over hand-written executable model + extracted-model/implementation correspondence check (differential, boundary sweep + fault enumeration)"
 READY = True
